@@ -510,6 +510,35 @@ def columnToParam (c : ColumnCall) : Except String (Str × Parsed) :=
                        serverDefault := kwGet kws c!"server_default", noneKey := raw.noneKey,
                        comment := if (kwGet kws c!"doc").isSome then kwGet kws c!"comment" else none })
 
+/-! ## A column as a record (readable view of a `Column(…)` call) -/
+
+/-- name, column type with its arguments, foreign key, and the keywords the emitters produce -/
+structure Column where
+  /-- positional name (absent in the declarative class form, where the assignment target is the name) -/
+  name : Option Str := none
+  /-- the type argument: `Name(String)`, `Enum('a', 'b', name=…)`, `ARRAY(…)`, or other source text -/
+  colType : Option Arg := none
+  /-- `ForeignKey('table.column')` -/
+  foreignKey : Option Str := none
+  /-- `primary_key=True` -/
+  primaryKey : Bool := false
+  nullable : Option Bool := none
+  default : Option Val := none
+  serverDefault : Option Val := none
+  /-- `comment=` (the description without marker and trailing dots) -/
+  comment : Option Str := none
+deriving DecidableEq, Repr
+
+def ColumnCall.view (c : ColumnCall) : Column :=
+  { name := match c.args.head? with | some (.const (.str s)) => some s | _ => none,
+    colType := c.args.find? (fun a => match a with | .name _ => true | .enum _ _ => true | .array _ => true | .expr _ => true | _ => false),
+    foreignKey := (c.args.findSome? (fun a => match a with | .fk v => some v | _ => none)),
+    primaryKey := kwGet c.kws c!"primary_key" == some (.bool true),
+    nullable := match kwGet c.kws c!"nullable" with | some (.bool b) => some b | _ => none,
+    default := kwGet c.kws c!"default",
+    serverDefault := kwGet c.kws c!"server_default",
+    comment := match kwGet c.kws c!"comment" with | some (.str s) => some s | _ => none }
+
 /-! ## The three emissions and their parsers (columns and table name) -/
 
 structure IR where
